@@ -357,6 +357,20 @@ impl ForwardedStreamSink {
             matches!(body_length, Some(BodyLength::Determined(0))),
         )?;
 
+        if matches!(body_length, Some(BodyLength::Determined(0))) {
+            // the end of stream went out with the headers: the response is complete, the sink
+            // stays idle and must not signal the end of stream again when the peer closes
+            if !tail.is_empty() {
+                log_id!(
+                    debug,
+                    self.id,
+                    "Dropping non-processed {} bytes coming after a response without body",
+                    tail.len()
+                );
+            }
+            return Ok(Bytes::new());
+        }
+
         self.state = match body_length {
             Some(BodyLength::Chunked) => SinkState::WaitingChunkPrefix(SinkWaitingChunkPrefix {
                 buffer: Default::default(),
@@ -413,6 +427,9 @@ impl ForwardedStreamSink {
                 );
             }
             state.sink.eof()?;
+            // the response is complete: the end of stream must not be signalled again
+            // when the peer closes the connection
+            self.state = SinkState::Idle;
             return Ok(Bytes::new());
         }
 
